@@ -516,8 +516,8 @@ Section Rel.
   Proof.
     intros f a1 a2 b1 b2 HA HB. destruct f; cbn; auto.
     - eapply relR_bind; [exact HA|]. intros va1 va2 Hva.
-      eapply relR_bind; [apply as_num_rel, Hva|]. intros x ? <-.
       eapply relR_bind; [exact HB|]. intros vb1 vb2 Hvb.
+      eapply relR_bind; [apply as_num_rel, Hva|]. intros x ? <-.
       eapply relR_bind; [apply as_num_rel, Hvb|]. intros y ? <-. constructor. constructor.
     - eapply relR_bind; [exact HA|]. intros va1 va2 Hva.
       eapply relR_bind; [apply as_num_rel, Hva|]. intros x ? <-. constructor. constructor.
